@@ -59,7 +59,7 @@ class Ctx:
         return self._eff[id(prog)]
 
 
-ALT_CONFIGS_QUICK = [{"CBOR_BUFFER_GROWTH": 3, "CBOR_MAX_STACK_SIZE": 5, "CBOR_PRETTY_PRINTER": 0}]
+ALT_CONFIGS_QUICK = [{"CBOR_BUFFER_GROWTH": 3, "CBOR_MAX_STACK_SIZE": 5, "CBOR_PRETTY_PRINTER": 0, "CHAR_UNSIGNED": 1}]
 ALT_CONFIGS_THOROUGH = ALT_CONFIGS_QUICK + [{"CBOR_BUFFER_GROWTH": 4, "CBOR_MAX_STACK_SIZE": 1},
                                             {"CBOR_BUFFER_GROWTH": 7, "CBOR_MAX_STACK_SIZE": 64}]
 
